@@ -4,7 +4,7 @@
    [appended l t r] the call r returned a line whose text is the text of l followed by exactly t;
    [fld name t] = " name=" ++ t.  Reference renderings: Spec/TextSpec.v. *)
 From PV Require Import Base.Prelude Model.Fastlog Model.FastlogOps Model.FastlogAsFound Spec.TextSpec
-  Proofs.Fastlog Proofs.FastlogAsFound.
+  Proofs.Fastlog Proofs.FastlogIP6 Proofs.FastlogAsFound.
 Open Scope N_scope.
 
 (* Uint8 / Uint16 / Uint32 print strconv's decimal text *)
@@ -66,6 +66,30 @@ Theorem C20_field_text : forall l name t,
   wf l -> fits l (fld name t) -> appended l (fld name t) (f_text l name t).
 Proof. exact field_text. Qed.
 Print Assumptions C20_field_text.
+
+(* appendIP6 prints the RFC 5952 text (as netip.Addr.String: leftmost longest run of two or more zero
+   groups compressed, no leading zeros, lower case) of EVERY 16-byte address: all 2^128 of them.
+   Proof: both sides factor through the zero layout (256 cases, closed sweep) and the text of a group. *)
+Theorem C20_ip6 : forall l ip,
+  wf l -> bytes_ok ip -> List.length ip = 16%nat -> fits l (ip6_plain (groups ip)) ->
+  appended l (ip6_plain (groups ip)) (append_ip6 l ip).
+Proof. exact ip6_all. Qed.
+Print Assumptions C20_ip6.
+
+Example C20_ip6_nonvacuous :
+  wf ex_line /\ bytes_ok ex_ip6 /\ List.length ex_ip6 = 16%nat /\ fits ex_line (ip6_plain (groups ex_ip6)) /\
+  ip6_plain (groups ex_ip6) = [50;48;48;49;58;100;98;56;58;58;49;58;48;58;48;58;49].   (* 2001:db8::1:0:0:1 *)
+Proof. exact ip6_nonvacuous. Qed.
+Print Assumptions C20_ip6_nonvacuous.
+
+(* IPSlice of any 4- or 16-byte net.IP prints net.IP.String: dotted quad for IPv4 and IPv4-mapped
+   addresses, RFC 5952 for every other 16-byte address *)
+Theorem C20_field_ipslice : forall l name ip,
+  wf l -> bytes_ok ip -> (List.length ip = 4%nat \/ List.length ip = 16%nat) ->
+  fits l (fld name (netip_text ip)) ->
+  appended l (fld name (netip_text ip)) (f_ipslice l name (Some ip)).
+Proof. exact field_ipslice. Qed.
+Print Assumptions C20_field_ipslice.
 
 (* ---------------------------------------------------------------------------------------------
    The code AS FOUND (/repo 040c128) violated the property in five ways; each was reproduced on
